@@ -4,7 +4,7 @@ set -e
 test -z "$(git -C /repo status --porcelain --untracked-files=no)" || { echo "/repo is not clean"; exit 1; }
 cd /verif
 rc=0
-for p in C01 C02 C04 C08 C09 C10 C12 C13 C14 C15 C16 C17 C20; do ./check $p --tier quick | grep -v "^ " | tail -1 || rc=1; done
+for p in C01 C02 C04 C07 C08 C09 C10 C12 C13 C14 C15 C16 C17 C20; do ./check $p --tier quick | grep -v "^ " | tail -1 || rc=1; done
 python3-vt vx/validate.py | tail -1
 python3 - <<'PY'
 import json,glob
